@@ -8,6 +8,7 @@ from vcheck import *
 
 P = "Cppcms.C13.Props."
 OBLIGATIONS = [
+    (P + "file_server_property", "HEADLINE: for every HTTP request target, roots that are realpath answers and a POSIX file system: reply = 404 | redirect to path+'/' | listing (enabled, confined directory, non-dot escaped rows) | content of a confined REGULAR file (composition of the theorems below)"),
     (P + "normalize_never_climbs", "for EVERY byte string p: normalize p is absolute and has no empty, '.' or '..' component (Spec.canonical)"),
     (P + "normalize_fixes_canonical", "a canonical path is left unchanged by normalize (so the model is not trivially safe); corollary normalize_idempotent"),
     (P + "normalize_resolves_dots_and_slashes", "for a request without a '..' piece: components of normalize p = the pieces of p minus the empty and '.' ones, in order"),
@@ -618,7 +619,13 @@ def main():
                     if cands and not okd:
                         viol.append(("listing of a directory outside every configured root" + (" (symlink check on)" if sym else " and not reachable from one"),
                                      {"stream": "req", "cfg": cfgkey, "case": short, "impl_output": o[:600], "directory": [d.decode("latin1") for d in cands]}))
-                elif kind not in ("404", "redirect"):
+                elif kind == "redirect":
+                    pinfo = py_urldecode(unhex(w[1])).split(b"\x00")[0]
+                    loc = unhex(o.split()[1]) if len(o.split()) > 1 else b""
+                    if b"\r" not in pinfo and b"\n" not in pinfo and loc != pinfo + b"/":
+                        viol.append(("redirect to something other than the request path plus '/'",
+                                     {"stream": "req", "cfg": cfgkey, "case": short, "impl_output": o[:400]}))
+                elif kind != "404":
                     viol.append((f"unexpected reply kind {kind!r} (status other than 200/302/404, garbled or no reply)",
                                  {"stream": "req", "cfg": cfgkey, "case": short, "impl_output": o[:400]}))
                 if not sample_done and kind in ("file", "list"):
